@@ -20,6 +20,7 @@ import (
 	"runtime"
 	"sort"
 	"strings"
+	"sync"
 	"sync/atomic"
 	"time"
 
@@ -58,6 +59,8 @@ type GPath struct {
 type Op struct {
 	K    string     `json:"k"`
 	C    int        `json:"c,omitempty"`
+	C2   int        `json:"c2,omitempty"` // race: the other subscriber
+	Upd  bool       `json:"upd,omitempty"` // race: a third goroutine spins Update
 	P    []string   `json:"p,omitempty"`
 	Ps   [][]string `json:"ps,omitempty"`
 	H    int        `json:"h,omitempty"`
@@ -321,6 +324,64 @@ func (w *world) apply(o Op) (res Obs) {
 		return Obs{Kind: "notif", Offers: offers, Hits: w.hits(n)}
 	case "nodes":
 		return Obs{Kind: "nodes", N: match.VerifC06Nodes(w.m)}
+	case "race":
+		// X = client C registers P, is sent Ps[0] and removes itself, H times;
+		// Y = client C2 spins AddQuery(Tq)/remove (a neighbour on a shared prefix).
+		cx, cy := o.C%maxClients, o.C2%maxClients
+		pth := o.Ps[0]
+		var stop int32
+		var wg sync.WaitGroup
+		wg.Add(1)
+		go func() {
+			defer wg.Done()
+			for atomic.LoadInt32(&stop) == 0 {
+				rm := w.m.AddQuery(cp(o.Tq), w.clients[cy].MatchClient())
+				rm()
+			}
+		}()
+		if o.Upd {
+			wg.Add(1)
+			go func() {
+				defer wg.Done()
+				junk := new(int)
+				for atomic.LoadInt32(&stop) == 0 {
+					w.m.Update(junk, cp(pth))
+					runtime.Gosched()
+				}
+			}()
+		}
+		offered := 0
+		ctx := context.Background()
+		func() {
+			defer func() {
+				atomic.StoreInt32(&stop, 1)
+				wg.Wait()
+			}()
+			for i := 0; i < o.H; i++ {
+				rm := w.m.AddQuery(cp(o.P), w.clients[cx].MatchClient())
+				tok := new(int)
+				w.m.UpdateOnce(tok, cp(pth), map[match.Client]struct{}{})
+				q := w.clients[cx].Q
+				for q.Len() > 0 {
+					it, dup, err := q.Next(ctx)
+					if err != nil {
+						panic(fmt.Sprintf("queue: %v", err))
+					}
+					if it == interface{}(tok) {
+						offered += 1 + int(dup)
+					}
+				}
+				rm()
+			}
+		}()
+		for _, c := range w.clients {
+			for c.Q.Len() > 0 {
+				if _, _, err := c.Q.Next(ctx); err != nil {
+					panic(fmt.Sprintf("queue: %v", err))
+				}
+			}
+		}
+		return Obs{Kind: "race", N: offered}
 	case "conc":
 		cs := &concState{}
 		for _, h := range o.Hs {
@@ -431,6 +492,9 @@ func run(ops []Op) []Obs {
 		if o.K == "conc" {
 			limit += 20 * time.Second
 		}
+		if o.K == "race" {
+			limit += 10 * time.Second
+		}
 	}
 	done := make(chan []Obs, 1)
 	go func() {
@@ -518,6 +582,9 @@ func opTerm(n *vh.Names, o Op) string {
 		return fmt.Sprintf("ONotif %s %s %s %s", vh.Bool(o.Atom), optGp(n, o.Pre), optGps(n, o.Ups), optGps(n, o.Dels))
 	case "nodes":
 		return "ONodes"
+	case "race":
+		cy := o.C2 % maxClients
+		return fmt.Sprintf("ORace %s %s %s %s %s %s %s", vh.Nat(o.C%maxClients), vh.Nat(cy), n.Path(o.P), n.Path(o.Tq), n.Path(o.Ps[0]), vh.Nat(o.H), vh.Bool(o.Upd))
 	case "conc":
 		hs := make([]string, len(o.Hs))
 		for i, h := range o.Hs {
@@ -553,6 +620,8 @@ func obsTerm(r Obs) string {
 		return fmt.Sprintf("RNotif %s %s", offersTerm(r.Offers), vh.List(el))
 	case "nodes":
 		return "RNodes " + vh.Nat(r.N)
+	case "race":
+		return "RRace " + vh.Nat(r.N)
 	case "conc":
 		el := make([]string, len(r.Late))
 		for i, h := range r.Late {
@@ -671,6 +740,13 @@ func longNames(r *vh.Rand) []string {
 	return l
 }
 
+// randOrigin: origins, including values that look like the default origin
+// (gNMI's mixed-schema default is "openconfig"; the code must treat every
+// non-empty origin literally).
+func randOrigin(r *vh.Rand) string {
+	return []string{"oc", "openconfig", "Openconfig", "openconfig-x", "default"}[r.Pick(4, 5, 1, 1, 1)]
+}
+
 func randTarget(r *vh.Rand) string {
 	return []string{"dev1", "dev2", "*"}[r.Pick(6, 2, 2)]
 }
@@ -687,7 +763,7 @@ func randSub(r *vh.Rand, c int, known *[][]string) Op {
 	}
 	pre.Target = randTarget(r)
 	if r.Chance(1, 5) {
-		pre.Origin = "oc"
+		pre.Origin = randOrigin(r)
 	}
 	n := 1 + r.Pick(4, 4, 2)
 	if r.Chance(1, 30) {
@@ -740,7 +816,7 @@ func randSub(r *vh.Rand, c int, known *[][]string) Op {
 		}
 		e := randGPath(r, ns)
 		if r.Chance(1, 10) {
-			e.Origin = "oc"
+			e.Origin = randOrigin(r)
 		}
 		if r.Chance(1, 10) {
 			e.Target = "dev9" // a target inside a subscription path is not indexed
@@ -757,7 +833,7 @@ func randNotif(r *vh.Rand, known [][]string) Op {
 		pre = randGPath(r, randNames(r, 1, 0))
 		pre.Target = []string{"dev1", "dev2", "*", ""}[r.Pick(10, 3, 1, 1)]
 		if r.Chance(1, 5) {
-			pre.Origin = "oc"
+			pre.Origin = randOrigin(r)
 		}
 	}
 	o := Op{K: "notif", Pre: pre, Atom: r.Chance(1, 5)}
@@ -780,7 +856,7 @@ func randNotif(r *vh.Rand, known [][]string) Op {
 			g = randGPath(r, ns)
 			// target / origin inside an update or delete path are not indexed
 			if r.Chance(1, 12) {
-				g.Origin = "oc"
+				g.Origin = randOrigin(r)
 			}
 			if r.Chance(1, 12) {
 				g.Target = "dev9"
@@ -889,6 +965,50 @@ func randSubSeq(r *vh.Rand) []Op {
 	return ops
 }
 
+// race family: registration concurrent with another subscriber's
+// registration/removal on a shared prefix (and with updates).  X's query
+// extends, equals, or is a sibling of Y's, so that Y's removal prunes (or
+// would prune) nodes on X's way.
+func randRaceSeq(r *vh.Rand, iters int) []Op {
+	var ops []Op
+	base := append([]string{randTarget(r)}, randNames(r, 2, 0)...)
+	// a few bystanders, some of them keeping part of the prefix alive
+	for i := 0; i < r.Intn(3); i++ {
+		q := mutate(r, base)
+		ops = append(ops, Op{K: "add", C: 4 + i, P: q})
+	}
+	nr := 1 + r.Intn(3)
+	for i := 0; i < nr; i++ {
+		qy := cp(base)
+		var qx []string
+		switch r.Pick(6, 2, 2, 1) {
+		case 0: // X below Y
+			qx = append(cp(base), randNames(r, 2, 1)...)
+			if len(qx) == len(base) {
+				qx = append(qx, "c")
+			}
+		case 1: // same node
+			qx = cp(base)
+		case 2: // siblings under a shared parent
+			qx = append(cp(base[:len(base)-1]), "x", "y")
+		case 3: // Y below X
+			qx = cp(base[:r.Intn(len(base))])
+		}
+		var p []string
+		if r.Chance(4, 5) {
+			p = append(cp(qx), randNames(r, 1, 1)...)
+		} else {
+			p = mutate(r, qx)
+		}
+		cx := r.Intn(4)
+		cy := (cx + 1 + r.Intn(3)) % 4
+		ops = append(ops, Op{K: "race", C: cx, C2: cy, P: qx, Tq: qy, Ps: [][]string{p}, H: iters, Upd: r.Chance(1, 3)})
+		ops = append(ops, Op{K: "upd", P: p})
+	}
+	ops = append(ops, Op{K: "nodes"})
+	return ops
+}
+
 // concurrent family: several clients on the same or overlapping paths, then
 // an update during which a trigger's callback has some of them removed, then
 // updates that must not reach the removed ones.
@@ -981,7 +1101,7 @@ func randUnderSeq(r *vh.Rand) []Op {
 	target := []string{"dev1", "dev2"}[r.Pick(4, 1)]
 	origin := ""
 	if r.Chance(1, 6) {
-		origin = "oc"
+		origin = randOrigin(r)
 	}
 	pool := []string{"a", "b", "c", "g"}
 	P := make([]string, r.Pick(2, 3, 3))
@@ -1050,7 +1170,14 @@ func randUnderSeq(r *vh.Rand) []Op {
 		if r.Chance(1, 6) {
 			st = "*"
 		}
-		ops = append(ops, splitSub(r, c, st, origin, full))
+		so := origin
+		switch r.Pick(6, 1, 1) {
+		case 1:
+			so = randOrigin(r) // the subscriber names an origin the data may not have
+		case 2:
+			so = ""
+		}
+		ops = append(ops, splitSub(r, c, st, so, full))
 	}
 	mk := func(atomic, asDelete bool, paths [][]string) Op {
 		pre := randGPath(r, P)
@@ -1065,7 +1192,7 @@ func randUnderSeq(r *vh.Rand) []Op {
 					g.Target = "dev9"
 				}
 				if origin == "" && r.Chance(1, 10) {
-					g.Origin = "oc"
+					g.Origin = randOrigin(r)
 				}
 			}
 			if asDelete {
@@ -1225,7 +1352,7 @@ func main() {
 	flag.Set("stderrthreshold", "FATAL")
 	o := vh.ParseFlags()
 	coalesce.VerifHook = queueHook
-	meta := vh.NewMeta("corpus cases; pairs-1: for every query path q of length 0..4 over {a,b,*} one case registering q and matching EVERY update path of length 0..4 over {a,b,*} against it (Update and UpdateOnce), then removal and the same updates again; pairs-2: two queries (same or different client) of length 0..3 against every update path of length 0..3 (quick: a seeded slice; thorough: all); sub: seeded subscribe-level sequences (1..3 subscription lists with 1..4 entries incl. entries without path, one list in six holding a name with a separator-like byte (/ , . space |) together with the same text split into separate elements, in either order, origins, keyed elements, deprecated element paths; notifications with 1..3 updates/deletes through Server.Update before and after removal); under: seeded cases about the path a notification is matched under: one notification prefix (0..2 elements) and 1..3 update paths, 3..7 subscribers above / at / below the prefix on paths agreeing with an update path (prefix, equal, extension, globbed) or disagreeing with every update path (at the first or a later element, or inside the prefix), subscription split between prefix and path at a random point (also path-less), then the notification as updates / deletes / mixed, atomic and not, prefix-only, with an empty update path, single update, other target, shorter prefix, target/origin noise, and again after one removal; conc: seeded concurrent cases: 2..7 clients on the same or overlapping paths (AddQuery, sometimes a subscription list), then Update/UpdateOnce during which a trigger client's callback -- running inside the matcher's call -- starts a goroutine calling the removal closures of a random subset (also twice), observing whether they return before the callback does (goroutine dump shows the remover parked on the lock, else bounded wait) and which of the clients being removed are first called after the removals returned, then updates that must not reach the removed clients; seq: seeded sequences of 4..30 operations mixing AddQuery (clients 0..2) / addSubscription (clients 3..7, one list each) / removal (repeated) / Update / UpdateOnce / Server.Update / trie size. distinct = distinct operation sequence; non-trivial = at least one registration and at least one update that was offered to some client")
+	meta := vh.NewMeta("corpus cases; pairs-1: for every query path q of length 0..4 over {a,b,*} one case registering q and matching EVERY update path of length 0..4 over {a,b,*} against it (Update and UpdateOnce), then removal and the same updates again; pairs-2: two queries (same or different client) of length 0..3 against every update path of length 0..3 (quick: a seeded slice; thorough: all); sub: seeded subscribe-level sequences (1..3 subscription lists with 1..4 entries incl. entries without path, one list in six holding a name with a separator-like byte (/ , . space |) together with the same text split into separate elements, in either order, origins, keyed elements, deprecated element paths; notifications with 1..3 updates/deletes through Server.Update before and after removal); under: seeded cases about the path a notification is matched under: one notification prefix (0..2 elements) and 1..3 update paths, 3..7 subscribers above / at / below the prefix on paths agreeing with an update path (prefix, equal, extension, globbed) or disagreeing with every update path (at the first or a later element, or inside the prefix), subscription split between prefix and path at a random point (also path-less), origins (oc, openconfig, Openconfig, openconfig-x, default, none) in the subscription prefix or path and in the notification prefix, agreeing or not; then the notification as updates / deletes / mixed, atomic and not, prefix-only, with an empty update path, single update, other target, shorter prefix, target/origin noise, and again after one removal; race: seeded cases in which a client registers a query, is sent a compatible update and removes itself 1500 times (thorough: 4000) while a second goroutine spins AddQuery/removal of another client on a shared prefix (X below / at / beside / above Y) and sometimes a third spins Update; observed: how many of its updates the client was offered; conc: seeded concurrent cases: 2..7 clients on the same or overlapping paths (AddQuery, sometimes a subscription list), then Update/UpdateOnce during which a trigger client's callback -- running inside the matcher's call -- starts a goroutine calling the removal closures of a random subset (also twice), observing whether they return before the callback does (goroutine dump shows the remover parked on the lock, else bounded wait) and which of the clients being removed are first called after the removals returned, then updates that must not reach the removed clients; seq: seeded sequences of 4..30 operations mixing AddQuery (clients 0..2) / addSubscription (clients 3..7, one list each) / removal (repeated) / Update / UpdateOnce / Server.Update / trie size. distinct = distinct operation sequence; non-trivial = at least one registration and at least one update that was offered to some client")
 	meta.Samples = []interface{}{} // never null in meta.json
 	e := &emitter{dir: o.Out, cf: vh.NewCaseFile(), meta: meta, limit: 1500}
 
@@ -1326,6 +1453,14 @@ func main() {
 	ru := r.Fork()
 	for i := 0; i < nunder; i++ {
 		e.add("under", randUnderSeq(ru.Fork()))
+	}
+	nrace, iters := 150, 1500
+	if o.Thorough() {
+		nrace, iters = 1500, 4000
+	}
+	rr := r.Fork()
+	for i := 0; i < nrace; i++ {
+		e.add("race", randRaceSeq(rr.Fork(), iters))
 	}
 	nconc := 400
 	if o.Thorough() {
